@@ -1,0 +1,60 @@
+//go:build verif
+
+package hevc
+
+// ---------------------------------------------------------------------------------------------------------------------
+// C14 (HEVC side): the helpers that walk a length-prefixed sample agree with the unit sequence of the sample.
+// Same vocabulary as in package avc (predicates are per package): unit k of sample s is s[smpPos(s,k)+4 : smpPos(s,k+1)].
+// ---------------------------------------------------------------------------------------------------------------------
+//@ spec be32i(s []byte, p int) int = int(uint32(s[p])<<24 | uint32(s[p+1])<<16 | uint32(s[p+2])<<8 | uint32(s[p+3]))
+//@ spec rec smpPos(s []byte, k int) int = ite(k <= 0, 0, smpPos(s, k-1) + 4 + be32i(s, smpPos(s, k-1)))
+//@ pred smpWF(s []byte, n int) = n >= 1 && smpPos(s, n) == len(s) && (forall k int :: 0 <= k && k < n ==> smpPos(s, k)+4 < smpPos(s, k+1) && smpPos(s, k+1) <= len(s))
+//@ spec hvType(b byte) NaluType = NaluType((b >> 1) & 0x3f)
+//@ spec rec smpType(s []byte, k int) NaluType = hvType(s[smpPos(s, k)+4])
+//@ spec rec smpHasType(s []byte, p int, t NaluType) bool = ite(p < 0 || p >= len(s)-4, false, ite(hvType(s[p+4]) == t, true, ite(p+4+be32i(s, p) > len(s), false, smpHasType(s, p+4+be32i(s, p), t))))
+
+// smpNoOverrun(s, p): no length field of the walk from p points beyond the sample (forward recursion like smpHasType).
+//@ spec rec smpNoOverrun(s []byte, p int) bool = ite(p < 0 || p >= len(s)-4, true, ite(p+4+be32i(s, p) > len(s), false, smpNoOverrun(s, p+4+be32i(s, p))))
+
+//@ func ContainsNaluType
+//@   ensures[C14] result == smpHasType(sample, 0, specificNaluType)
+//@   loop 1 invariant length == len(sample) && length >= 4 && int(pos) <= length
+//@   loop 1 invariant smpHasType(sample, 0, specificNaluType) == smpHasType(sample, int(pos), specificNaluType)
+
+// (on a sample with an overrunning length field the type byte of the broken unit is still listed; the element-wise
+// clause is stated for samples without overrun, which includes all well-formed ones: third clause)
+//@ func FindNaluTypes
+//@   ensures[C14] smpNoOverrun(sample, 0) ==> (forall k int :: 0 <= k && k < len(result) ==> result[k] == smpType(sample, k))
+//@   ensures[C14] forall n int :: smpWF(sample, n) ==> len(result) == n
+//@   ensures[C14] forall n int :: smpWF(sample, n) ==> smpNoOverrun(sample, 0)
+//@   loop 1 invariant smpNoOverrun(sample, 0) == smpNoOverrun(sample, int(pos))
+//@   loop 1 invariant length == len(sample) && length >= 4 && int(pos) == smpPos(sample, len(naluList)) && int(pos) <= length
+//@   loop 1 invariant forall k int :: 0 <= k && k < len(naluList) ==> naluList[k] == smpType(sample, k)
+//@   loop 1 invariant forall k int :: 0 <= k && k < len(naluList) ==> smpPos(sample, k) < length-4 && smpPos(sample, k+1) <= length
+//@   loop 1 invariant forall n int :: smpWF(sample, n) ==> len(naluList) <= n
+
+// smpNoOverrunV(s, p): like smpNoOverrun, but the walk stops after the first video unit.
+//@ spec rec smpNoOverrunV(s []byte, p int) bool = ite(p < 0 || p >= len(s)-4, true, ite(p+4+be32i(s, p) > len(s), false, ite(hvType(s[p+4]) <= 31, true, smpNoOverrunV(s, p+4+be32i(s, p)))))
+//@ func FindNaluTypesUpToFirstVideoNalu
+//@   ensures[C14] smpNoOverrunV(sample, 0) ==> (forall k int :: 0 <= k && k < len(result) ==> result[k] == smpType(sample, k))
+//@   ensures[C14] forall n int :: smpWF(sample, n) ==> smpNoOverrunV(sample, 0)
+//@   loop 1 invariant smpNoOverrunV(sample, 0) == smpNoOverrunV(sample, int(pos))
+//@   ensures[C14] forall k int :: 0 <= k && k < len(result)-1 ==> smpType(sample, k) > 31
+//@   ensures[C14] forall n int :: smpWF(sample, n) ==> len(result) <= n
+//@   ensures[C14] forall n int :: smpWF(sample, n) && len(result) < n ==> len(result) >= 1 && smpType(sample, len(result)-1) <= 31
+//@   loop 1 invariant length == len(sample) && length >= 4 && int(pos) == smpPos(sample, len(naluList)) && int(pos) <= length
+//@   loop 1 invariant forall k int :: 0 <= k && k < len(naluList) ==> naluList[k] == smpType(sample, k)
+//@   loop 1 invariant forall k int :: 0 <= k && k < len(naluList) ==> smpType(sample, k) > 31
+//@   loop 1 invariant forall k int :: 0 <= k && k < len(naluList) ==> smpPos(sample, k) < length-4 && smpPos(sample, k+1) <= length
+//@   loop 1 invariant forall n int :: smpWF(sample, n) ==> len(naluList) <= n
+
+// IsRAPSample / IsIDRSample: some unit of a well-formed sample has a type in the range, and only then.
+//@ func IsRAPSample
+//@   ensures[C14] forall n int :: smpWF(sample, n) && result ==> (exists k int :: 0 <= k && k < n && 16 <= smpType(sample, k) && smpType(sample, k) <= 23)
+//@   ensures[C14] forall n int :: smpWF(sample, n) && !result ==> (forall k int :: 0 <= k && k < n ==> !(16 <= smpType(sample, k) && smpType(sample, k) <= 23))
+//@   loop 1 invariant smpNoOverrun(sample, 0) ==> (forall k int :: 0 <= k && k < idx(1) ==> !(16 <= smpType(sample, k) && smpType(sample, k) <= 23))
+
+//@ func IsIDRSample
+//@   ensures[C14] forall n int :: smpWF(sample, n) && result ==> (exists k int :: 0 <= k && k < n && 19 <= smpType(sample, k) && smpType(sample, k) <= 20)
+//@   ensures[C14] forall n int :: smpWF(sample, n) && !result ==> (forall k int :: 0 <= k && k < n ==> !(19 <= smpType(sample, k) && smpType(sample, k) <= 20))
+//@   loop 1 invariant smpNoOverrun(sample, 0) ==> (forall k int :: 0 <= k && k < idx(1) ==> !(19 <= smpType(sample, k) && smpType(sample, k) <= 20))
